@@ -130,7 +130,8 @@ def x_prog(ctx, case):
     program = expand(case)
     env = programs.Env(program)
     log = recorders.Log()
-    the_case = programs.build_case(program, env)
+    runner = programs.runner_factory_for(case.get("runner"))
+    the_case = programs.build_case(program, env, runner)
     initial = dict(program.get("scratch", {}))
     histories = []
     nontrivial = False
@@ -230,4 +231,10 @@ def run(ctx):
         if rng.random() < 0.25 and not prog.get("decor"):
             if add_escaping_handler(rng, prog):
                 ctx.count("programs-with-escaping-handler")
-        ctx.execute("prog", {"prog": prog})
+        case = {"prog": prog}
+        r = rng.random()
+        if r < 0.15:
+            case["runner"] = "sync"
+        elif r < 0.3 and not prog.get("decor"):
+            case["runner"] = "async"
+        ctx.execute("prog", case)
